@@ -29,9 +29,10 @@ type Roles struct {
 
 	WatchEventT *types.Named // common.WatchEvent
 
-	SeqRegion    *fnRegion     // the sequencer goroutine's function and the same-package helpers it calls
-	Sink         *ssa.Function // stores a non-nil *WatchEvent into the slot array
-	SinkRevParam int           // signature index of the revision parameter of Sink
+	SeqRegion    *fnRegion       // the sequencer goroutine's function and the same-package helpers it calls
+	Sink         *ssa.Function   // stores a non-nil *WatchEvent into the slot array (or hands it to the helper that does)
+	SinkChain    []*ssa.Function // the sink and the helpers (constructor, slot store) it is split into
+	SinkRevParam int             // signature index of the revision parameter of Sink
 	SinkValidPar int
 	SinkErrParam int
 	Sequencer    *ssa.Function // loads slots, clears them, commits
@@ -170,7 +171,7 @@ func (p *Prog) roles() *Roles {
 		// type in its package; methods of other components (the event cache, the hub) are not part of the role
 		rootRecv := roots[0].Signature.Recv()
 		r.SeqRegion = &fnRegion{root: roots[0], descend: func(g *ssa.Function) bool {
-			if g.Pkg != slotFn.Pkg || g == sinks[0] || g.Synthetic != "" {
+			if g.Pkg != slotFn.Pkg || r.inSinkChain(g) || g.Synthetic != "" {
 				return false
 			}
 			top := g
@@ -184,22 +185,105 @@ func (p *Prog) roles() *Roles {
 		}}
 	}
 	r.Sink, r.Sequencer = sinks[0], seqs[0]
+	r.SinkChain = []*ssa.Function{sinks[0]}
 	r.SinkRevParam, r.SinkValidPar, r.SinkErrParam = -1, -1, -1
+	weFields := map[string]*types.Var{}
 	for _, fname := range []string{"Revision", "Valid", "Err"} {
-		fv := p.structField("pkg/backend/common", "WatchEvent", fname)
+		weFields[fname] = p.structField("pkg/backend/common", "WatchEvent", fname)
+	}
+	set := func(fname string, idx int) {
+		switch fname {
+		case "Revision":
+			r.SinkRevParam = idx
+		case "Valid":
+			r.SinkValidPar = idx
+		case "Err":
+			r.SinkErrParam = idx
+		}
+	}
+	for fname, fv := range weFields {
 		for _, st := range p.fields().stores[fv] {
 			if st.Parent() != r.Sink {
 				continue
 			}
 			if prm, ok := st.Val.(*ssa.Parameter); ok {
-				switch fname {
-				case "Revision":
-					r.SinkRevParam = sigParamIndex(prm)
-				case "Valid":
-					r.SinkValidPar = sigParamIndex(prm)
-				case "Err":
-					r.SinkErrParam = sigParamIndex(prm)
+				set(fname, sigParamIndex(prm))
+			}
+		}
+	}
+	if r.SinkRevParam < 0 || r.SinkValidPar < 0 || r.SinkErrParam < 0 {
+		// the storing function is handed the finished event: the sink is then its (only) caller, where the three
+		// values are still parameters - the event being a literal there or the result of a constructor
+		p.buildCallersLite()
+		store := sinks[0]
+		var evParam *ssa.Parameter
+		for _, prm := range store.Params {
+			if types.Identical(prm.Type(), wePtr) {
+				evParam = prm
+			}
+		}
+		var sites []ssa.CallInstruction
+		for _, cs := range p.staticCallers[store] {
+			if _, isCall := cs.(*ssa.Call); isCall {
+				sites = append(sites, cs)
+			}
+		}
+		if evParam != nil && len(sites) == 1 && !p.addressTaken(store) {
+			site := sites[0]
+			caller := site.Parent()
+			arg := resolve(site.Common().Args[paramIndex(evParam)])
+			// fieldSource: the value stored into field fv of the event, in the caller's frame
+			fieldSource := func(fv *types.Var) ssa.Value {
+				fromAlloc := func(al *ssa.Alloc) ssa.Value {
+					for _, ref := range *al.Referrers() {
+						if fa, ok := ref.(*ssa.FieldAddr); ok && fieldOf(fa) == fv {
+							for _, r2 := range *fa.Referrers() {
+								if st, ok := r2.(*ssa.Store); ok && st.Addr == ssa.Value(fa) {
+									return st.Val
+								}
+							}
+						}
+					}
+					return nil
 				}
+				switch x := arg.(type) {
+				case *ssa.Alloc:
+					return fromAlloc(x)
+				case *ssa.Call:
+					k := x.Common().StaticCallee()
+					if k == nil || k.Blocks == nil || k.Pkg != store.Pkg {
+						return nil
+					}
+					rv, ok := uniqueNonNilReturn(k, 0)
+					if !ok {
+						return nil
+					}
+					al, ok := resolve(rv).(*ssa.Alloc)
+					if !ok {
+						return nil
+					}
+					kp, ok := resolve(fromAlloc(al)).(*ssa.Parameter)
+					if !ok || kp.Parent() != k {
+						return nil
+					}
+					r.SinkChain = append(r.SinkChain, k)
+					return x.Common().Args[paramIndex(kp)]
+				}
+				return nil
+			}
+			okAll := true
+			for fname, fv := range weFields {
+				src := fieldSource(fv)
+				prm, ok := resolve(src).(*ssa.Parameter)
+				if src == nil || !ok || prm.Parent() != caller {
+					okAll = false
+					continue
+				}
+				set(fname, sigParamIndex(prm))
+			}
+			if okAll {
+				r.Sink = caller
+				r.SinkChain = append([]*ssa.Function{caller}, r.SinkChain...)
 			}
 		}
 	}
@@ -286,4 +370,13 @@ func (p *Prog) global(pkgPath, name string) *ssa.Global {
 		brokenf("package variable %s.%s not found", pkgPath, name)
 	}
 	return g
+}
+
+func (r *Roles) inSinkChain(f *ssa.Function) bool {
+	for _, g := range r.SinkChain {
+		if g == f {
+			return true
+		}
+	}
+	return false
 }
